@@ -66,6 +66,11 @@ def gen_c13(rng, tier):
         c.add("Q isempty")
         c.add("Q getall")
         c.add("Q get %d" % MAXU)
+        # positions whose doubling (2 bits per symbol), quadrupling or +1 wraps around 2^64 back into the vector
+        for base in (2 ** 63, 2 ** 62, 2 ** 64 - 1 - n, 2 ** 63 + 2 ** 62):
+            for off in sorted(set([0, 1, max(n - 1, 0), n, rng.randrange(n + 1)])):
+                if base + off <= MAXU:
+                    c.add("Q get %d" % (base + off))
         c.add("ITER iter " + "n" * (n + 3))
         c.add("ITER into " + "n" * min(n + 3, 50))
         out.append(c)
@@ -393,6 +398,21 @@ def gen_c03(rng, tier):
         out.append(c)
         k += 1
     out += gap_profile_cases(rng, "c03", 2, ["hwt"], "hw", GAPS2)
+    # plain trees over symbols that need more than 32 / 64 bits (more than 64 levels for u128): every bit of the
+    # full-width symbol decides a level, in the partition of the build as well as in the walks
+    for elem, pool in [("u64", [2 ** 32, 2 ** 32 + 1, 2 ** 63, 2 ** 64 - 1, 7, 2 ** 40 + 3]),
+                       ("u128", [2 ** 64, 2 ** 64 + 5, 2 ** 100, 2 ** 127, 2 ** 128 - 1, 5, 2 ** 64 - 1, 2 ** 65 + 2 ** 3]),
+                       ("u128", [2 ** 64 + 1, 1, 2 ** 64 + 2, 2, 3 * 2 ** 64 + 1, 3]),
+                       ("usize", [2 ** 63 + 1, 2 ** 33, 1, 0])]:
+        for n in [7, rng.choice([120, 300]), 1500]:
+            seq = [rng.choice(pool) for _ in range(n)]
+            c = Case("c03-wide%d" % k, tags=dict(kind="wt", elem=elem, n=n, maxsym_bits=max(seq).bit_length(), mix="wide", cost=n * 1500))
+            k += 1
+            c.add(C.new_line("wt", elem, rng.choice(["new", "from", "collect"]), seq))
+            C.tree_queries(c, rng, seq, WIDTH[elem], "w", sweep=(n <= 300))
+            c.model = n <= 300
+            c.seq = seq
+            out.append(c)
     for kind in ["wt", "hwt"]:
         c = Case("c03-empty-%s" % kind, tags=dict(kind=kind, n=0, trivial=True))
         c.add("NEW %s u32 %s 0" % (kind, rng.choice(["new", "from", "collect"])))
@@ -785,6 +805,32 @@ def gen_c10(rng, tier):
         c.model = True
         out.append(c)
         k += 1
+    # trees over symbols wider than 32 / 64 bits (more than 16 / 32 quad levels, more than 32 / 64 binary levels):
+    # the unchecked walks against the checked ones
+    for kind, fam in [(kq, "q") for kq in QWT_KINDS] + [("wt", "w")]:
+        for elem, pool in [("u64", [2 ** 32, 2 ** 32 + 1, 2 ** 63, 2 ** 64 - 1, 7, 2 ** 40 + 3]),
+                           ("u128", [2 ** 64, 2 ** 64 + 5, 2 ** 100, 2 ** 127, 2 ** 128 - 1, 5, 2 ** 64 - 1, 2 ** 65 + 2 ** 3])]:
+            n = rng.choice([7, 120, 700])
+            seq = [rng.choice(pool) for _ in range(n)]
+            c = Case("c10-wide%d" % k, tags=dict(kind=kind, elem=elem, n=n, maxsym_bits=max(seq).bit_length(), mix="wide", cost=n * 300))
+            k += 1
+            c.add(C.new_line(kind, elem, rng.choice(["new", "from", "collect"]), seq))
+            for sy in sorted(set(seq)):
+                occ = seq.count(sy)
+                for kq in sorted(set([0, occ - 1, rng.randrange(occ)])):
+                    c.add("Q uselect %d %d" % (sy, kq))
+                    c.add("Q select %d %d" % (sy, kq))
+                for i in sorted(set([0, n, rng.randrange(n + 1)])):
+                    c.add("Q urank %d %d" % (sy, i))
+                    c.add("Q rank %d %d" % (sy, i))
+                    if fam == "q":
+                        c.add("Q urankp %d %d" % (sy, i))
+            for i in sorted(set([0, n - 1, rng.randrange(n)])):
+                c.add("Q uget %d" % i)
+                c.add("Q get %d" % i)
+            c.seq = seq
+            c.model = n <= 300
+            out.append(c)
     # quad / bit structures
     for _ in range(sizes(tier, 40, 200)):
         n = rng.choice([1, 2, 255, 256, 257, 511, 513, 2048, 2049, 4100, 9000])
@@ -1144,9 +1190,48 @@ def gen_c18(rng, tier):
             c.add("THREADS %d %s" % (rng.choice([2, 4, 8, 16]), q[2:]))
         for q in queries:      # repeating a query gives the same answer
             c.add(q)
+        # threads running DIFFERENT queries at the same time (a query-time cache or hint shared between
+        # calls is torn only by that): batches of single queries with the same operation
+        groups = {}
+        for q in queries:
+            t = q.split()
+            if len(t) >= 3 and not t[1].endswith("all") and all(x.isdigit() for x in t[2:]):
+                groups.setdefault((t[1], len(t) - 2), []).append(t[2:])
+        for (op, ar), argl in sorted(groups.items()):
+            if len(argl) >= 2:
+                flat = [x for a in argl[:48] for x in a]
+                c.add("TMIX %d %d %s %d %s" % (rng.choice([4, 8, 16]), 40, op, ar, " ".join(flat)))
         c.add("SER")
         c.model = False
         out.append(c)
+    # select structures with neighbouring occurrence indices queried concurrently: bit vectors whose ones (zeros)
+    # are spread so that in-block scans cross several words, every select structure
+    kk = 0
+    for kind in ["darray1", "darray0", "rsn", "rsw"]:
+        for gap in sizes(tier, [50, 200], [3, 50, 130, 200, 700]):
+            n = rng.choice([20000, 60000])
+            bits = [0] * n
+            pos = rng.randrange(gap)
+            while pos < n:
+                bits[pos] = 1
+                pos += gap + rng.randrange(-gap // 3, gap // 3 + 1)
+            ones = sum(bits)
+            c = Case("c18-mix%d" % kk, tags=dict(kind=kind, n=n, mix="gap%d" % gap, cost=n))
+            kk += 1
+            c.add(C.bits_line(kind, "bits" if kind.startswith("darray") else "new", bits))
+            c.fam = "da" if kind.startswith("darray") else kind
+            c.add("SER")
+            for op, cnt in (("select1", ones), ("select0", n - ones)):
+                if kind == "darray1" and op == "select0":
+                    continue
+                for _ in range(3):
+                    lo = rng.randrange(max(cnt - 64, 1))
+                    args = [str(lo + j) for j in range(min(64, cnt - lo))]
+                    if len(args) >= 2:
+                        c.add("TMIX %d %d %s 1 %s" % (rng.choice([4, 8, 16]), 60, op, " ".join(args)))
+            c.add("SER")
+            c.model = False
+            out.append(c)
     return out
 
 
@@ -1403,6 +1488,27 @@ def gen_c04(rng, tier):
         c.tags.update(how=how, cost=n * 10)
         c.model = n <= 1100
         out.append(c)
+    # lengths around the sampling period of the prefetch support (2048) and around the block / superblock periods,
+    # queried at and just past the end, for every alias with prefetch support (two and more levels)
+    k = 0
+    for kind in ["qwt256pfs", "qwt512pfs", "hqwt256pfs", "hqwt512pfs"]:
+        for n in sizes(tier, [2047, 2048, 2049, 4096], [2047, 2048, 2049, 4095, 4096, 4097, 6144, 8192]):
+            alpha = rng.choice([[0, 1, 2, 3, 4, 5], [1, 7, 19, 33, 60], list(range(40))])
+            seq = [rng.choice(alpha) for _ in range(n)]
+            c = Case("c04-pfs%d" % k, tags=dict(kind=kind, elem="u8", n=n, mix="period", how="built", cost=n * 10))
+            k += 1
+            c.add(C.new_line(kind, "u8", rng.choice(["new", "from", "collect"]), seq))
+            if kind.startswith("hq"):
+                c.add("Q codes")
+            for a in [0, 1, n - 1, n, n + 1, 2047, 2048, 2049, MAXU]:
+                for sy in sorted(set([alpha[0], alpha[-1], alpha[len(alpha) // 2], alpha[-1] + 1])):
+                    c.add("Q rankp %d %d" % (sy, a))
+                    c.add("Q rank %d %d" % (sy, a))
+                c.add("Q get %d" % a)
+            c.seq = seq
+            c.fam = "hq" if kind.startswith("hq") else "q"
+            c.model = n <= 2100
+            out.append(c)
     return out
 
 
@@ -1695,7 +1801,7 @@ PROPS = {
 def kf_bvm_get_bits_end(ctx, f):
     """BitVectorMut::get_bits(i, len) with i + len == n_bits answers None (>= instead of >)"""
     t = ctx["cmd"]
-    if ctx["kind"] != "bvm" or t[0] != "Q" or t[1] != "getbits":
+    if ctx["kind"] != "bvm" or not ((t[0] == "Q" and t[1] == "getbits") or (t[0] == "THREADS" and len(t) > 2 and t[2] == "getbits")):
         return False
     # the object must still be a BitVectorMut at this point
     kind = "bvm"
@@ -1705,7 +1811,8 @@ def kf_bvm_get_bits_end(ctx, f):
             kind = "bv"
         if l.startswith("OP tomut"):
             kind = "bvm"
-    if kind != "bvm" or f.got != "N" or not f.expected.startswith("S"):
+    got, exp = f.got.split("|")[0], f.expected.split("|")[0]
+    if kind != "bvm" or got != "N" or not exp.startswith("S"):
         return False
     return True
 
